@@ -381,3 +381,94 @@ fn c14_dns_assembly_2() {
 fn c14_dns_assembly_0() {
     dns_assembly(0)
 }
+
+
+// ---- assembly with concrete control (header flags, names, types concrete; ID and destination
+// address symbolic): "exactly one answer per question, counts match the records present" for
+// one and two questions, incl. the same name asked twice ----
+fn dns_assembly_concrete(n0: u8, n1: u8, nq: usize) {
+    let id: [u8; 2] = kani::any();
+    let h: [u8; 12] = [id[0], id[1], 0x01, 0x00, 0, nq as u8, 0, 0, 0, 0, 0, 0];
+    let header = DNSHeader::try_from(h.to_vec()).unwrap();
+    let mut pkt = DNSPacket::new();
+    pkt.header = header;
+    pkt.d.state = DNSState::End;
+    let mut k = 0;
+    while k < nq {
+        let mut q = DNSQuery::new();
+        q.name.push(1);
+        q.name.push(if k == 0 { n0 } else { n1 });
+        q.name.push(0);
+        q.type_ = DNSType::A;
+        q.class = DNSClass::IN;
+        q.d.state = DNSQueryState::End;
+        pkt.qd.push(q);
+        k += 1;
+    }
+    let dst: [u8; 4] = kani::any();
+    let ci = dns_ci(Ipv4Addr::from(dst));
+    let masscanned = ms_plain([0, 0], MacAddr::new(0, 1, 2, 3, 4, 5));
+    let v = match pkt.repl(&masscanned, &ci, None) {
+        Some(v) => v,
+        None => {
+            assert!(false, "C14: query with only IN/A questions not answered");
+            return;
+        }
+    };
+    // header(12) + nq questions (3 name + 4) + nq answers (3 name + 10 + 4 rdata)
+    assert!(v[0] == id[0] && v[1] == id[1] && v[2] & 0x80 != 0, "C14: ID not echoed / QR not set");
+    assert!(v[5] as usize == nq && v[7] as usize == nq && v[4] == 0 && v[6] == 0, "C14: QDCOUNT / ANCOUNT do not equal the number of questions");
+    assert!(v.len() == 12 + nq * 7 + nq * 17, "C14: section counts do not match the records present (not exactly one answer per question)");
+    let mut k = 0;
+    while k < nq {
+        let name = if k == 0 { n0 } else { n1 };
+        let qo = 12 + 7 * k;
+        assert!(v[qo] == 1 && v[qo + 1] == name && v[qo + 2] == 0 && v[qo + 4] == 1 && v[qo + 6] == 1, "C14: question not echoed in place");
+        let ao = 12 + 7 * nq + 17 * k;
+        assert!(v[ao] == 1 && v[ao + 1] == name && v[ao + 2] == 0, "C14: answer not owned by the queried name / not in question order");
+        assert!(v[ao + 4] == 1 && v[ao + 6] == 1 && v[ao + 11] == 0 && v[ao + 12] == 4, "C14: answer is not an IN/A record with RDLENGTH 4");
+        assert!(v[ao + 13] == dst[0] && v[ao + 14] == dst[1] && v[ao + 15] == dst[2] && v[ao + 16] == dst[3], "C14: RDATA is not the address the query was sent to");
+        k += 1;
+    }
+    kani::cover!(true, "message answered");
+    std::mem::forget(pkt);
+}
+
+//# harness: c14_dns_assembly_one
+//# props: C14 C01
+//# tier: quick
+//# encodes: proto::dns::DNSPacket::repl (assembly of header, echoed questions and answers), DNSHeader::repl, DNSQuery::repl, DNSRR, From<&DNSPacket> for Vec<u8>
+//# bounds: one IN/A question for the one-byte name 'a'; header flags concrete (RD set), message ID and destination address symbolic, questions built directly in their parsed state
+//# out: QDCOUNT > 2; names longer than one label of one byte; the byte-wise message parser beyond the header
+//# cover: message answered
+#[kani::proof]
+#[kani::unwind(40)]
+fn c14_dns_assembly_one() {
+    dns_assembly_concrete(b'a', b'a', 1)
+}
+
+//# harness: c14_dns_assembly_two_distinct
+//# props: C14 C01
+//# tier: thorough
+//# encodes: proto::dns::DNSPacket::repl (assembly of header, echoed questions and answers), DNSHeader::repl, DNSQuery::repl, DNSRR, From<&DNSPacket> for Vec<u8>
+//# bounds: two IN/A questions for the names 'a' and 'b'; header flags concrete (RD set), message ID and destination address symbolic, questions built directly in their parsed state
+//# out: QDCOUNT > 2; names longer than one label of one byte; the byte-wise message parser beyond the header
+//# cover: message answered
+#[kani::proof]
+#[kani::unwind(40)]
+fn c14_dns_assembly_two_distinct() {
+    dns_assembly_concrete(b'a', b'b', 2)
+}
+
+//# harness: c14_dns_assembly_two_same
+//# props: C14 C01
+//# tier: quick
+//# encodes: proto::dns::DNSPacket::repl (assembly of header, echoed questions and answers), DNSHeader::repl, DNSQuery::repl, DNSRR, From<&DNSPacket> for Vec<u8>
+//# bounds: two IN/A questions for the same name 'a'; header flags concrete (RD set), message ID and destination address symbolic, questions built directly in their parsed state
+//# out: QDCOUNT > 2; names longer than one label of one byte; the byte-wise message parser beyond the header
+//# cover: message answered
+#[kani::proof]
+#[kani::unwind(40)]
+fn c14_dns_assembly_two_same() {
+    dns_assembly_concrete(b'a', b'a', 2)
+}
